@@ -107,7 +107,7 @@ def run(ctx):
     recs = []
     meta = {}
     for lg in logs:
-        if lg["exc"] != "ok" or lg["rows_w"]:
+        if lg.get("timeout") or lg["exc"] != "ok" or lg["rows_w"]:
             continue
         for res in lg["res"]:
             if res["exc"] != "ok" or res["read"] % lg["line_sz"] != 0:
